@@ -251,6 +251,8 @@ int simheap_id(const void *p);          /* ordinal id of live or quarantined blo
 /* block containing address (live or freed): returns id or -1; *live, *off */
 int simheap_find(const void *addr, int *live, size_t *off, size_t *size);
 unsigned simheap_live_count(int tag);
+/* enumerate live blocks of a tag (in allocation order); returns the number found (may exceed max) */
+unsigned simheap_list(int tag, void **ptrs, size_t *sizes, unsigned max);
 uint64_t simheap_live_bytes(int tag);
 /* canaries of all live+quarantined blocks (rel/dbg); returns id of a damaged block or -1 */
 int simheap_check_canaries(void);
@@ -264,6 +266,17 @@ struct simheap_event { int kind; int id; size_t size; };  /* kind: 'A','F','R','
 extern struct simheap_event g_hev[MAXHEV];
 extern int g_nhev;
 void simheap_events_clear(void);
+
+/*
+ * Systematic allocation-fault enumeration (C16): executes once(p) fault-free to
+ * count the library's allocation calls N, then again with every single ordinal
+ * failing, every suffix failing, every pair (N <= 40, seeded sample above) and
+ * every triple (N <= 12). once() must reset its world, call faultenum_apply()
+ * right after simheap_reset(), and finish with its own leak audit.
+ */
+void faultenum(const plan_t *p, void (*once)(const plan_t *));
+void faultenum_apply(void);
+extern const char *g_fe_desc;   /* description of the placement in force ("none", "single:7", ...) */
 
 /* schedule point hook (memc): called from alloc wrappers when in a fiber */
 extern void (*g_sched_point)(int kind, const void *addr);
